@@ -4,7 +4,8 @@ import CallbagModel.Script
 # interval: the model side of the C16 correspondence, and the oracle over recorded runs
 
 Script tokens as in harness/src/ivl.rs: `S<j>o|s|c`, `T<j>` (timer expires, task runs to its next await = `expire; bump; deliver`),
-`T<j>q` (the same, with sink j disposing from inside its data handler), `Q<j>` (sink j disposes at top level).
+`T<j>q` (the same, with sink j disposing from inside its data handler), `Q<j>` (sink j disposes at top level); `T<j>e` / `R<j>`: the same
+two disposals made with `Error` instead of `Terminate` on the talkback (one event of the model: `dispose`).
 -/
 open Cb Cb.Interval
 
@@ -19,7 +20,9 @@ def ivlEvents (tok : String) : Option (List Ev) :=
       | 'S', "c" => some [.subscribe j .closed]
       | 'T', "" => some [.expire j, .bump j, .deliver j]
       | 'T', "q" => some [.expire j, .bump j, .deliver j, .dispose j]
+      | 'T', "e" => some [.expire j, .bump j, .deliver j, .dispose j]
       | 'Q', "" => some [.dispose j]
+      | 'R', "" => some [.dispose j]
       | _, _ => none
     | none => none
   | [] => none
@@ -80,13 +83,16 @@ def ivlOracle (rec : List String) : List String := Id.run do
     | 'Q' :: r => match (String.ofList r).toNat? with
       | some j => let (_, g, f, n, _, q) := get st j; st := put st (j, g, f, n, true, q)
       | none => pure ()
+    | 'R' :: r => match (String.ofList r).toNat? with
+      | some j => let (_, g, f, n, _, q) := get st j; st := put st (j, g, f, n, true, q)
+      | none => pure ()
     | 'T' :: r =>
       -- a tick that starts after the disposal was requested observes it: silence from here on;
       -- `T<j>q` requests the disposal during this tick
       match splitIdx r with
       | some (j, suf) =>
         let (_, g, f, n, d, q) := get st j
-        st := put st (j, g, f, n, d || suf == ['q'], q || d)
+        st := put st (j, g, f, n, d || suf == ['q'] || suf == ['e'], q || d)
       | none => pure ()
     | _ => pure ()
   return bad.reverse
